@@ -156,6 +156,17 @@ class _L2(SC._Sched):
             self._lazy = z3.Bool("lazy_stepping")
         p.ghost["region_start"] = dict(self._h0)
 
+    def model_values(self, m, ob=None):
+        """small scope: the state at the call and the state at the end of the failing path"""
+        M = self._M
+        d = M.dump_model(m, self._h0)
+        if ob is not None and ob.ghost is not None and "heap" in ob.ghost:
+            d["after"] = M.dump_model(m, ob.ghost["heap"])
+        from pyvc.discharge import model_value
+        d["lazy_stepping"] = model_value(m, self._lazy) if hasattr(self, "_lazy") else None
+        d["sim"] = str(model_value(m, self._me))
+        return d
+
     # -- to be provided
     def pre(self, M, hd, A):
         return {}
@@ -334,6 +345,11 @@ class WaitForDependencies(_L2):
         }
 
 
+    def native_call(self, m):
+        from contracts import scheduler_native as N
+        return N.replay_wait_for_dependencies(m)
+
+
 class Step(_L2):
     """step(world, sim, inputs, max_advance): performs the external step for current_step;
     afterwards last_step = current_step, a valid returned time r < until is scheduled as
@@ -353,11 +369,27 @@ class Step(_L2):
 
     def post(self, M, hc, h, A, result):
         a, me = M.alg, A.sim
-        return {
+        out = {
             "next_steps_only_grow": a.forall_times(lambda x: h["NS"][me][x] >= hc["NS"][me][x]),
             "last_step_is_current": h["LS"][me] == hc["CSv"][me],
             "not_in_step_call": Not(h["in_step"][me]),
         }
+        if TOP[0] is self:
+            # C02 (b), completeness: a valid returned time before `until` IS scheduled, as (r, 0, .., 0)
+            r = self._p.ghost.get("step_reply")
+            if r is not None:
+                out["C02_self_step_scheduled"] = Implies(r < M.until, h["NS"][me][a.plus(a.mkT1(r), M.fwt(me))] > 0)
+        return out
+
+    def justify_demand(self, it, dest, x):
+        """C02 (b), soundness: the only step demanded by step() is the returned time, if it is
+        an int later than the current step and before `until`, as (r, 0, .., 0) for this simulator"""
+        M, h = self._M, self.cur()
+        a = M.alg
+        r = it.p.ghost.get("step_reply")
+        if r is None:
+            return False
+        return And(dest == self._me, x == a.plus(a.mkT1(r), M.fwt(self._me)), r < M.until, r > a.time(h["CSv"][self._me]))
 
     def loop_local(self, M, h):
         return {}
@@ -382,14 +414,32 @@ class GetOutputs(_L2):
     def post(self, M, hc, h, A, result):
         a, me = M.alg, A.sim
         t = h["LS"][me]
+        ot = h["OT"][me]
+        if a.small:
+            exact = True
+        else:
+            i = z3.Int("i!ot")
+            # the step's own tiered time if the output is for the step time, else (time, 0, .., 0):
+            # sub-step tiers are reset when time advances (C09 'time then advances normally', C02)
+            exact = Or(ot == t, And(a.time(ot) != a.time(t),
+                                    z3.ForAll([i], Implies(And(1 <= i, i < a.tlen(ot)), a.tier(ot, i) == 0))))
         return {
             "next_steps_only_grow": a.forall_times(lambda x: h["NS"][me][x] >= hc["NS"][me][x]),
-            "output_time_valid": Implies(M.out_req(me), And(a.tlen(h["OT"][me]) == a.depth(me), a.t_nonneg(h["OT"][me]),
-                                                           a.le(t, h["OT"][me]))),
+            "output_time_valid": Implies(M.out_req(me), And(a.tlen(ot) == a.depth(me), a.t_nonneg(ot), a.le(t, ot))),
+            "output_time_exact": Implies(M.out_req(me), exact),
         }
 
     def loop_local(self, M, h):
         return {}
+
+    def native_call(self, m):
+        from contracts import scheduler_native as N
+        return N.replay_get_outputs(m)
+
+    def native_search(self, budget):
+        for cs in ([2], [2, 0], [2, 1], [2, 3, 1]):
+            for reply_time in (None, 2, 3, 5, 1):
+                yield {"native_case": {"current_step": cs, "reply_time": reply_time}}
 
 
 L2_CALLEES = [NextStepSettled, WaitForDependencies, Step, GetOutputs]
